@@ -1401,6 +1401,10 @@ func (p *Printer) command(cmd Command, redirs []*Redirect) (startRedirs int) {
 				p.advanceLine(ci.OpPos.Line())
 				// avoid ; directly after tokens like ;;
 				p.wroteSemi = true
+			} else if len(ci.Stmts) == 0 {
+				// The last ;; was left out; an item without statements
+				// cannot be followed by a ; either, as in "a);esac".
+				p.wroteSemi = true
 			}
 			p.comments(last...)
 			p.flushComments()
